@@ -292,10 +292,19 @@ def _check_resolve(case, ctx):
             variants.append(sel + "/")
         seen = {}
         fails = []
+        if o["kind"] == "menu" and "|" not in sel and sel != "/":
+            # the same trailing slash, percent-encoded by a client that escapes every reserved character (URL-based forms)
+            variants.append(sel + "%2F")
         for v in variants:
             for form in RES_FORMS:
                 tls, fam = clients.FORMS[form]
-                r = drive.serve(cfg, clients.encode(form, world.b(v)), tls=tls, realfd=full)
+                if v.endswith("%2F") and v != sel:
+                    if fam in ("gopher", "gplus", "gdollar", "gbang"):
+                        continue
+                    rq = clients.encode(form, world.b(sel), raw_path=clients.pct(world.b(sel)) + b"%2F")
+                else:
+                    rq = clients.encode(form, world.b(v))
+                r = drive.serve(cfg, rq, tls=tls, realfd=full)
                 pr = clients.parse_response(form, r.response)
                 if r.escaped is not None or not pr.ok or pr.problems:
                     fails.append(Fail("resolve-failed:%s" % fam, "%s cannot resolve %r (%s): %r" % (form, v, o["what"], pr.errmsg or r.response[:80])))
